@@ -161,7 +161,7 @@ pub fn oracle_clean(base: u32) {
     check(a.bad == 0, base + 94);
 }
 
-fn clean_scenario(n: usize, nacts: usize, kinds: u8) {
+fn clean_scenario(n: usize, nacts: usize, kinds: u8, only_clean_other: bool, inter: u8) {
     for i in 0..n {
         new_node(i);
     }
@@ -174,14 +174,17 @@ fn clean_scenario(n: usize, nacts: usize, kinds: u8) {
     // actions: owner and kind symbolic
     for k in 0..nacts {
         let owner = any_below(n as u8) as usize;
-        let kind = any_below(kinds);
+        let mut kind = any_below(kinds);
+        if only_clean_other && kind == 1 {
+            kind = A_CLEAN_OTHER;
+        }
         register(k, owner, kind, n);
     }
     oracle_safety(100);
     oracle_clean(100);
     // interleaving: per action: nothing / clean now / drop the cleanable / clean then drop
     for k in 0..nacts {
-        match any_below(4) {
+        match any_below(inter) {
             1 => {
                 if let Some(cl) = &acts().cleanable[k] {
                     cl.clean();
@@ -246,16 +249,16 @@ fn clean_scenario(n: usize, nacts: usize, kinds: u8) {
 
 #[no_mangle]
 pub fn h_clean_n2() {
-    clean_scenario(2, 2, A_NKINDS);
+    clean_scenario(2, 2, A_NKINDS, false, 4);
 }
 
 #[no_mangle]
 pub fn h_clean_n2_a3() {
-    clean_scenario(2, 3, A_NKINDS);
+    clean_scenario(2, 3, 2, true, 2);
 }
 
 #[no_mangle]
 pub fn h_clean_twin() {
-    clean_scenario(1, 1, 2);
+    clean_scenario(1, 1, 2, false, 4);
     check(false, 9999);
 }
